@@ -141,12 +141,18 @@ class IterableQueue(Iterator[Elem]):
             self._spare_lids = queue.Queue(maxsize=num_suppliers)
             self._applied_lids = queue.Queue(maxsize=num_suppliers)
             self._used_lids = queue.Queue(maxsize=num_suppliers)
+            self._lid_gate = queue.Queue(maxsize=1)
         else:
             self._spare_lids = multiprocessing.Queue(maxsize=num_suppliers)
             self._applied_lids = multiprocessing.Queue(maxsize=num_suppliers)
             self._used_lids = multiprocessing.Queue(maxsize=num_suppliers)
+            self._lid_gate = multiprocessing.Queue(maxsize=1)
         for _ in range(num_suppliers):
             self._spare_lids.put(None)
+        # `_lid_gate` is a single-slot queue used as a mutex (it works across threads as well as
+        # processes): consumers take turns moving a lid to `_used_lids` and checking whether that
+        # made it full, so that exactly one consumer concludes it has exhausted the queue.
+        self._lid_gate.put(None)
         # User should not touch these internal helper queues.
         # TODO: the name 'lid' is not very good; something implying the "bottom" would be better.
         # TODO: do we need to use a lock to group the access to the helper queues?
@@ -161,6 +167,7 @@ class IterableQueue(Iterator[Elem]):
             self._applied_lids,
             self._used_lids,
             self._can_timeout,
+            self._lid_gate,
         )
 
     def __setstate__(self, zz):
@@ -172,6 +179,7 @@ class IterableQueue(Iterator[Elem]):
             self._applied_lids,
             self._used_lids,
             self._can_timeout,
+            self._lid_gate,
         ) = zz
 
     @property
@@ -262,9 +270,14 @@ class IterableQueue(Iterator[Elem]):
                 # This does not increase the number of `None`s in the queue
                 # as it simply replaces the one that is just taken off the queue.
                 raise StopIteration
-            z = self._applied_lids.get()
-            self._used_lids.put(z)
-            if self._used_lids.full():
+            self._lid_gate.get()
+            try:
+                z = self._applied_lids.get()
+                self._used_lids.put(z)
+                exhausted = self._used_lids.full()
+            finally:
+                self._lid_gate.put(None)
+            if exhausted:
                 # This is the first consumer who sees the queue is exhausted.
                 # Put an extra `None` in the queue for other consumers to see.
                 # This is needed because we don't assume nor limit the number
